@@ -80,10 +80,35 @@ def param_object(r):
     return _PO[0](r)
 
 
+_CPO = []
+
+
+def chain_param_object(r):
+    """a ParameterObject that is also a ChainObject: every chain (real or test helper) must call init_chain on it before tasks run"""
+    if not _CPO:
+        from taskchain.parameter import ParameterObject
+        from taskchain.chain import ChainObject
+
+        class CPO(ParameterObject, ChainObject):
+            def __init__(self, r):
+                self.r = r
+                self.tcv_state = 'fresh'
+
+            def repr(self):
+                return self.r
+
+            def init_chain(self, chain):
+                self.tcv_state = 'attached'
+        _CPO.append(CPO)
+    return _CPO[0](r)
+
+
 def mform(v):
     """value as the model (and a provenance term) sees it"""
     if _PO and isinstance(v, _PO[0]):
         return {'__obj__': v.repr()}
+    if _CPO and isinstance(v, _CPO[0]):
+        return {'__obj__': v.repr(), 'state': 'attached'}      # what run must see in any chain
     if isinstance(v, list):
         return [mform(x) for x in v]
     if isinstance(v, dict):
@@ -330,8 +355,9 @@ def one_family(ctx, i, root, reqs, metas):
             mocks[slug[over]] = rng.choice([v_ for v_ in MOCK_VALUES if v_ is not None])
             ctx.count('mock-overrides-task')
         if given and rng.random() < 0.2:
-            given[rng.choice(sorted(given))] = param_object('PO(' + gen.gen_str(rng, gen.SAFE, 4) + ')')
-            ctx.count('parameter-object')
+            mk = rng.choice([param_object, chain_param_object])
+            given[rng.choice(sorted(given))] = mk('PO(' + gen.gen_str(rng, gen.SAFE, 4) + ')')
+            ctx.count('parameter-object' if mk is param_object else 'parameter-object:chain-object')
         mock_by = {k: rng.choice(['class', 'name']) for k in mocks}
         scenario = rng.choice(['fresh', 'fresh', 'explicit', 'create', 'missing-mock', 'missing-param', 'reuse', 'reuse'])
         via_create = scenario == 'create' and len(real) == 1
